@@ -78,6 +78,10 @@ type Muxer struct {
 type segmentChannel struct {
 	mu sync.Mutex
 	ch chan *Segment
+	// unregistered is closed by UnregisterProtocol before it takes mu, so
+	// that a delivery blocked on a full channel (which holds mu) gives up
+	// instead of blocking the unregister forever
+	unregistered chan struct{}
 }
 
 type ConnectionClosedError struct {
@@ -198,7 +202,10 @@ func (m *Muxer) RegisterProtocol(
 	// Generate channels
 	senderChan := make(chan *Segment, 10)
 	receiver := make(chan *Segment, 10)
-	receiverChan := &segmentChannel{ch: receiver}
+	receiverChan := &segmentChannel{
+		ch:           receiver,
+		unregistered: make(chan struct{}),
+	}
 	// Record channels in protocol sender/receiver maps
 	m.protocolReceiversMutex.Lock()
 	if _, ok := m.protocolSenders[protocolId]; !ok {
@@ -251,6 +258,8 @@ func (m *Muxer) UnregisterProtocol(
 	}
 	// Signal shutdown to protocol
 
+	// Wake up a delivery that is blocked on the (no longer drained) channel
+	close(recvChan.unregistered)
 	recvChan.mu.Lock()
 	defer recvChan.mu.Unlock()
 	if recvChan.ch != nil {
@@ -436,6 +445,10 @@ func (m *Muxer) readLoop() {
 		case <-m.doneChan:
 			recvChan.mu.Unlock()
 			return
+		case <-recvChan.unregistered:
+			// The protocol was unregistered while we were waiting for room;
+			// nobody will read this segment anymore
+			recvChan.mu.Unlock()
 		case recvChan.ch <- msg:
 			recvChan.mu.Unlock()
 		}
